@@ -69,6 +69,9 @@ type vRec struct {
 	Len uint16
 }
 
+// vLevelsCheck is set by c18_levels.go (kept behind a variable so that this file compiles without it).
+var vLevelsCheck func(c *vT, s *Stat)
+
 type vT struct {
 	n    int
 	keys []string
@@ -591,6 +594,11 @@ func (c *vT) checkC18() {
 	}
 	if c.n == 1 {
 		vAssert(s.KeyCnt == 1 && s.NodeCnt == 1, "C18.single")
+	}
+	if vLevelsCheck != nil && vParamDef("skel", -1) >= 0 {
+		// concrete key sets: the level table against the one recomputed through the query path's
+		// node decoder (c18_levels.go)
+		vLevelsCheck(c, s)
 	}
 	vObserve("keycnt", s.KeyCnt)
 	vObserve("nodecnt", s.NodeCnt)
